@@ -38,7 +38,7 @@ import (
 )
 
 func init() {
-	register(&Prop{ID: "C22", Module: "V.C22.Check", Gen: c22Gen, Quick: 360, Thorough: 3000, Shard: 20})
+	register(&Prop{ID: "C22", Module: "V.C22.Check", Gen: c22Gen, Quick: 360, Thorough: 3000, Shard: 45})
 }
 
 // exact rational of a float64: (qz n) or (qd m e) = m / 2^e
@@ -672,6 +672,18 @@ func c22Gen(r *Rng, tier string, n int) []Case {
 	} {
 		for _, k := range []int{1, 2, 7, 30} {
 			out = append(out, c22Direct(r.Fork(), cfg, k, "direct-corpus"))
+		}
+	}
+	// overflowing rows+columns grids in both directions: more cells than rows*columns, every remainder
+	for _, d := range [][2]int{{3, 2}, {2, 3}, {4, 2}, {2, 4}, {5, 3}, {3, 5}, {2, 1}, {1, 2}, {6, 1}} {
+		for _, rowsFirst := range []bool{true, false} {
+			cap0 := d[0] * d[1]
+			for k := cap0 + 1; k <= cap0+d[0]+d[1] && k <= 30; k++ {
+				if (k+d[0]+d[1])%2 == 0 && cap0 > 4 { // every second count for the larger ones
+					continue
+				}
+				out = append(out, c22Direct(r.Fork(), c22Config{rows: d[0], cols: d[1], rowsFirst: rowsFirst, gap: -1, vgap: -1, hgap: -1}, k, "direct-overflow"))
+			}
 		}
 	}
 	for i := 0; i < n/12; i++ {
